@@ -406,9 +406,24 @@ def init_cond(step):
 
 # ---------------------------------------------------------------------------------------------
 def run_children(chk, cases, nworkers):
-    shards = [cases[i::nworkers] for i in range(nworkers)]
+    # longest-processing-time first: a case costs (number of steps) x (reference + one run per crash point)
+    def cost(c):
+        exp = c.get("expand")
+        if not exp:
+            return len(c["steps"]) * 2
+        kinds = exp.get("only_kinds") or ["exists", "move", "open", "write", "close", "move"]
+        pts = sum(len(exp.get("cuts", [0])) if k == "write" else 1 for k in kinds)
+        return len(c["steps"]) * (1 + pts) * 2 + (4 if c["steps"][-1].get("cont") else 0)
+    shards, load = [[] for _ in range(nworkers)], [0] * nworkers
+    for c in sorted(cases, key=cost, reverse=True):
+        i = load.index(min(load))
+        shards[i].append(c)
+        load[i] += cost(c) + (8 if not any(x["base"] == c["base"] for x in shards[i][:-1]) else 0)
     shards = [s for s in shards if s]
     outs = [None] * len(shards)
+
+    import time as _time
+    t_child0 = _time.time()
 
     def work(i):
         job = {"root": os.path.join(chk.build, f"w{i}"), "timeout": 180, "kwargs": KWARGS,
@@ -418,6 +433,8 @@ def run_children(chk, cases, nworkers):
             outs[i] = json.loads(out)
         except ValueError:
             outs[i] = {"error": f"rc={rc} {err[-1500:]}"}
+        chk.notes.append(f"worker {i}: {len(shards[i])} cases ({', '.join(c['id'] for c in shards[i])}) "
+                         f"{_time.time() - t_child0:.0f} s")
 
     ths = [threading.Thread(target=work, args=(i,)) for i in range(len(shards))]
     for t in ths:
@@ -456,7 +473,7 @@ def run(chk):
     today(chk, defs)
 
     cases = balance(gen_cases(chk))
-    outs = run_children(chk, cases, 4 if chk.tier == "quick" else 6)
+    outs = run_children(chk, cases, 6 if chk.tier == "quick" else 8)
     results = []
     for o in outs:
         if o is None or "error" in o:
